@@ -30,6 +30,9 @@ def main():
         if not a.no_lean:
             ck.gate.run(leanchecker=ck.thorough)
         common.use_repo_sources()
+        from . import probe as _probe
+
+        pr = _probe.Probe(_probe.anchor_files(common.VERIF, common.REPO, prop)).start()
         if a.replay:
             data = json.load(open(a.replay))
             if data.get("kind") == "no-failing-input-found" or not hasattr(mod, "replay"):
@@ -41,6 +44,10 @@ def main():
             if (ck.gate.problems or ck.mismatches) and not ck.failures and hasattr(mod, "search"):
                 # L1/L2 broken: deeper failing-input search on the real code
                 mod.search(ck)
+        pr.stop()
+        ck.extra_cov["impl_line_coverage_in_process"] = pr.summary(common.REPO)
+        ck.extra_cov["impl_line_coverage_note"] = ("lines of the property's anchored files executed in the check's own process while the harness "
+                                                  "drove the real code (pool workers / subprocesses are not observed)")
         return ck.finish()
     except common.HarnessError as e:
         print(f"[{prop}] HARNESS ERROR: {e}", file=sys.stderr)
